@@ -1,4 +1,8 @@
-"""C16 — Douglas-Peucker / Visvalingam simplification (tracklib/algo/simplification.py, util/geometry.py)."""
+"""C16 — Douglas-Peucker / Visvalingam simplification (tracklib/algo/simplification.py, util/geometry.py).
+
+Case kinds: `dp` / `vw` (list-level model: kept indices), `trk` (Track-level model: the Track object returned by
+douglas_peucker / visvalingam / simplify in its various call forms, and the input track's snapshot), `mode` (the dispatcher),
+`dist` / `area` (point-wise geometry), flag `wild` (coordinates outside any ENU frame: correspondence only)."""
 import itertools, math
 from fractions import Fraction
 from engine import Prop, fbits, bitsf, close, ratstr, parse_rat
@@ -28,6 +32,16 @@ def polyline_d2(p, V):
     if len(V) == 1:
         return (p[0] - V[0][0]) ** 2 + (p[1] - V[0][1]) ** 2
     return min(seg_d2(p, V[k], V[k + 1]) for k in range(len(V) - 1))
+
+
+def seg_d2_float(p, a, b):
+    """float version of seg_d2: ONLY a pre-filter for the exact test (see polyline_far)"""
+    dx, dy = b[0] - a[0], b[1] - a[1]
+    l2 = dx * dx + dy * dy
+    if l2 == 0:
+        return (p[0] - a[0]) ** 2 + (p[1] - a[1]) ** 2
+    t = max(0.0, min(1.0, ((p[0] - a[0]) * dx + (p[1] - a[1]) * dy) / l2))
+    return (p[0] - a[0] - t * dx) ** 2 + (p[1] - a[1] - t * dy) ** 2
 
 
 def mirror_dist(x0, y0, x1, y1, x2, y2):
@@ -97,7 +111,7 @@ class P(Prop):
         (M, "TV.C16.dist_sq_eq", "T4 (executable form): distance_to_segment^2 equals the sqrt-free closed form distSegSq that the driver evaluates exactly on rationals against the harness' oracle"),
         (M, "TV.C16.dp_tolerance", "T5: every input fix is within eps (true point-segment distance, squared form) of a segment between two consecutive vertices of the OUTPUT polyline"),
         (M, "TV.C16.dp_correct", "T1+T2+T3+T5 in one statement: for every track of >= 2 fixes and eps > 0 a result exists, is a sublist keeping both ends, and is within tolerance"),
-        (M, "TV.C16.vw_sublist_ends", "T6: Visvalingam (areas below ARGMIN's 1e300 sentinel, any tolerance, any scalar type) returns a sublist keeping the first and last observation and its loop stops by itself within len(track) passes"),
+        (M, "TV.C16.vw_sublist_ends", "T6: Visvalingam (areas below ARGMIN's initial minimum, +inf since 68863c7: finite areas, any tolerance, any scalar type) returns a sublist keeping the first and last observation and its loop stops by itself within len(track) passes"),
         (M, "TV.C16.dp_any_tiebreak", "T7: whichever of several equally far fixes is taken as split point (the runs the correspondence check accepts), the result is a sublist keeping both ends; any scalar type"),
         (M, "TV.C16.dp_any_tiebreak_tolerance", "T7: every such run is within tolerance, and the code's own run (first farthest fix) is one of them"),
         (M, "TV.C16.single_fix", "a one-fix track is returned unchanged by both algorithms"),
@@ -108,14 +122,14 @@ class P(Prop):
         (M, "TV.C16.vw_track_ends", "T9: with T6's hypothesis the first and last observation (feature rows included) of the Track are kept"),
         (M, "TV.C16.vw_removeObs_is_C04", "composition with C04: output.removeObs(id) (TV.Seq.removeObs, the model of removeObsList([id]) used by the Track-level loop) is the eraseIdx of the list-level loop; the + of Douglas-Peucker uses C04's sameNames rule as it is"),
         (M, "TV.C16.simplify_dispatch", "simplify(track, tol, 1) is douglas_peucker, mode 2 is visvalingam, a mode outside 1..8 raises (NameError); modes 3..8 call other functions, outside the statement"),
-        (M, "TV.C16.vw_sentinel_first_pass", "T6' (round 1's open statement, now proved): when no interior fix has an initial area below ARGMIN's sentinel (>= 1e300, inf, NaN), ARGMIN answers 0, NaN > eps is False, and the first pass removes the FIRST observation; any scalar type"),
+        (M, "TV.C16.vw_sentinel_first_pass", "T6' (round 1's open statement, now proved): when no interior fix has an initial area below ARGMIN's initial minimum (+inf since 68863c7: the areas are inf or NaN), ARGMIN answers 0, NaN > eps is False, and the first pass removes the FIRST observation; any scalar type"),
         (M, "TV.C16.vw_threshold", "T10 (threshold semantics, linear order): under T6's hypothesis every interior fix of Visvalingam's result spans with its two neighbours in the result a triangle of area > eps^2 (the '@aire' column stays consistent with the current neighbours; ARGMIN designates a smallest entry)"),
     ]
     partial = []
     open_statements = [
         "IEEE rounding: T3 (field form), T4 and T5 are over a linearly ordered field with an exact sqrt; on floats the tolerance is sampled by the transfer "
         "check with slack 1e-9 (T1, T2, T6 and the scalar-independent T3 do apply to the Float model as they assume nothing about the scalar)",
-        "Visvalingam beyond the FIRST pass when areas reach ARGMIN's sentinel 1e300 or are NaN/infinite (coordinates ~1e150 and more, not ENU tracks): "
+        "Visvalingam beyond the FIRST pass when areas are infinite or NaN, i.e. not below ARGMIN's initial minimum +inf (coordinates ~1e154 and more, not ENU tracks): "
         "T6' proves that the first pass removes the first fix when no area is below the sentinel; mixed columns and the later passes are only compared "
         "with the model (stream `wild`)",
         "T10 (vw_threshold) is proved over a linear order; on floats the areas are rounded, so an area within an ulp of eps^2 may fall on either side "
@@ -124,7 +138,7 @@ class P(Prop):
     modelled = ("util/geometry.py distance_to_segment (l == 0 branch, normalised scalar product, clamp to the segment's box), "
                 "triangle_area, aire_visval; algo/simplification.py douglas_peucker (n <= 2 base case, first farthest fix by strict >, "
                 "dmax < eps, split L[0:imax] / L[imax:n], recursion, concatenation) and visvalingam (eps **= 2, '@aire' column with NaN at "
-                "both ends, Operator.ARGMIN with the 1e300 sentinel, break on area > eps, removal, two neighbour updates). "
+                "both ends, Operator.ARGMIN with its initial minimum float('inf') (68863c7; 1e300 before), break on area > eps, removal, two neighbour updates). "
                 "On the Track object (Model/SimplifyTrack.lean): simplify(track, tolerance, mode, verbose) dispatch for every mode "
                 "(1, 2 modelled; 3 squaring and 4..8 optimalSimplification named, not modelled; others NameError); douglas_peucker's "
                 "Track(L) / Track([L[0], L[n-1]], uid, tid, base) / Track(L[0:imax], ...) + Track(L[imax:n], ...) with Track.__add__'s "
@@ -336,7 +350,7 @@ class P(Prop):
         return c
 
     def wild_case(self, rng):
-        """coordinates outside any ENU frame: huge (squares overflow, areas reach ARGMIN's sentinel 1e300), infinite, NaN, denormal.
+        """coordinates outside any ENU frame: huge (squares overflow, areas become infinite: not below ARGMIN's initial minimum +inf), infinite, NaN, denormal.
         Outside the property's domain (spec says nothing): model and code are compared on them"""
         n = rng.choice([2, 3, 3, 4, 5, 6])
         xs = [rng.randrange(4) for _ in range(n)]
@@ -761,7 +775,17 @@ class P(Prop):
         if algo == "dp":
             V = [(F(xs[i]), F(ys[i])) for i in kept]
             lim = (F(tol) * (1 + F(SLACK))) ** 2
+            # sound shortcut for long tracks: a fix whose FLOAT distance is below tol by a margin (1e-6 relative, far above the rounding
+            # error of the formula as long as tol is not tiny w.r.t. the coordinates) is within tol exactly; the others get the exact test
+            scale = max([abs(float(v)) for v in xs + ys] + [1.0])
+            quick = n > 12 and float(tol) > 1e-6 * scale
+            Vf = [(float(xs[i]), float(ys[i])) for i in kept]
+            limf = float(tol) ** 2 * (1 - 1e-6)
             for i in range(n):
+                if quick:
+                    pf = (float(xs[i]), float(ys[i]))
+                    if len(Vf) > 1 and min(seg_d2_float(pf, Vf[k_], Vf[k_ + 1]) for k_ in range(len(Vf) - 1)) <= limf:
+                        continue
                 d2 = polyline_d2((F(xs[i]), F(ys[i])), V)
                 if d2 > lim:
                     return "Douglas-Peucker(tol=%r): input fix %d %s is at distance %.12g > tol from the simplified polyline (kept %s)" % (
@@ -770,10 +794,11 @@ class P(Prop):
 
     # ---------------------------------------------------------------- known-finding classes
     def classify(self, case, impl_out, msg):
-        """'vw-area-reaches-argmin-sentinel': Visvalingam on a track three fixes of which span a triangle of area >= 1e300
-        (coordinates ~1e150): Operator.ARGMIN's sentinel `minimum = +1e300` is then never undercut, it answers index 0 and the
-        first fix is removed. Excluded by the hypothesis `hbig` of TV.C16.vw_sublist_ends; such coordinates are outside the
-        oracle's domain (> 1e100) and only produced by the `wild` stream (correspondence).
+        """'vw-area-reaches-argmin-sentinel': Visvalingam on a track three fixes of which span a triangle whose float area is infinite
+        or NaN (coordinates ~1e154 and more): Operator.ARGMIN's initial minimum `float('inf')` (1e300 before 68863c7) is then never
+        undercut, it answers index 0 and the first fix is removed (TV.C16.vw_sentinel_first_pass). Excluded by the hypothesis `hbig`
+        of TV.C16.vw_sublist_ends; such coordinates are outside the oracle's domain (> 1e100) and only produced by the `wild` stream
+        (correspondence).
         'vw-user-feature-named-aire': the input track has a feature called '@aire' (the name of Visvalingam's temporary column):
         it is overwritten in the working copy and deleted from the result (example in Props/C16.lean; outside `FreshTable`).
         'vw-tolerance-square-overflow': `eps **= 2` raises OverflowError for a tolerance >= 1.35e154."""
@@ -785,25 +810,30 @@ class P(Prop):
         if pow2_overflows(case["tol"]):
             return FINDING_TOL_OVERFLOW
         if not finite_case(case):
-            return None
-        pts = [(F(fv(x)), F(fv(y))) for x, y in zip(case["xs"], case["ys"])]
+            return "vw-area-reaches-argmin-sentinel"
+        if all(abs(fv(v)) <= 1e100 for v in case["xs"] + case["ys"]):
+            return None                                      # every area is below 1e201
+        pts = [(float(fv(x)), float(fv(y))) for x, y in zip(case["xs"], case["ys"])]
         for a, b, c in itertools.combinations(pts, 3):
-            if abs((b[0] - a[0]) * (c[1] - b[1]) - (c[0] - b[0]) * (b[1] - a[1])) / 2 >= F(1e300):
+            area = 0.5 * abs((b[0] - a[0]) * (c[1] - b[1]) - (c[0] - b[0]) * (b[1] - a[1]))
+            if not area < float("inf"):
                 return "vw-area-reaches-argmin-sentinel"
         return None
 
     # ---------------------------------------------------------------- shrinking / search
-    def drop_fix(self, case, i):
-        c = dict(case, xs=case["xs"][:i] + case["xs"][i + 1:], ys=case["ys"][:i] + case["ys"][i + 1:])
+    def drop_fix(self, case, i, j=None):
+        """the case without fixes i..j-1"""
+        j = i + 1 if j is None else j
+        c = dict(case, xs=case["xs"][:i] + case["xs"][j:], ys=case["ys"][:i] + case["ys"][j:])
         if case["kind"] == "trk":
-            c["rows"] = [list(r) for r in case["rows"][:i] + case["rows"][i + 1:]]
+            c["rows"] = [list(r) for r in case["rows"][:i] + case["rows"][j:]]
             if c["rows"] and c["names"]:
                 for j, r in enumerate(c["rows"]):
                     r[0] = j                                # the first feature stays the index
             if case.get("zs"):
-                c["zs"] = case["zs"][:i] + case["zs"][i + 1:]
+                c["zs"] = case["zs"][:i] + case["zs"][j:]
             if case.get("ts"):
-                c["ts"] = case["ts"][:i] + case["ts"][i + 1:]
+                c["ts"] = case["ts"][:i] + case["ts"][j:]
         return c
 
     def shrink(self, case):
@@ -829,6 +859,11 @@ class P(Prop):
                 yield dict(case, names=[], rows=[[] for _ in case["rows"]])
             if (case["uid"], case["tid"], case["base"]) != (0, 0, None):
                 yield dict(case, uid=0, tid=0, base=None)
+        size = n // 2
+        while size >= 2:                                    # long tracks: blocks first
+            for a in range(0, n, size):
+                yield self.drop_fix(case, a, min(n, a + size))
+            size //= 2
         for i in range(n):
             if n > 1:
                 yield self.drop_fix(case, i)
